@@ -318,9 +318,16 @@ class CFG:
             if k == 'goto':
                 outs = [(None, t['target'])]
             elif k == 'switch':
-                for v, tgt in t['targets']:
-                    outs.append((('sw', v), tgt))
-                outs.append((('sw', 'otherwise'), t['otherwise']))
+                # outcomes leading to the same block form one edge (or-patterns): label = ('sw', (v1, v2, ..))
+                by_tgt = {}
+                order = []
+                for v, tgt in list(t['targets']) + [['otherwise', t['otherwise']]]:
+                    if tgt not in by_tgt:
+                        by_tgt[tgt] = []
+                        order.append(tgt)
+                    by_tgt[tgt].append(v)
+                for tgt in order:
+                    outs.append((('sw', tuple(by_tgt[tgt])), tgt))
             elif k == 'return':
                 outs = [(None, EXIT)]
             elif k in ('unreachable', 'resume'):
@@ -922,10 +929,30 @@ def literals(body, R, bb):
     normalised to ('is', x, {variants}) | ('true', x) | ('false', x) | ('eq', x, v) | ('notin', x, {v..})."""
     out = []
     cfg = body.cfg()
-    for (sb, lab) in cfg.guards(bb):
-        lit = edge_literal(body, R, sb, lab)
-        if lit is not None:
-            out.append(lit + (sb,))
+    seen = set()
+    work = [bb]
+    while work:
+        cur = work.pop()
+        if cur in seen:
+            continue
+        seen.add(cur)
+        for (sb, lab) in cfg.guards(cur):
+            lit = edge_literal(body, R, sb, lab)
+            if lit is None:
+                continue
+            if (lit + (sb,)) not in out:
+                out.append(lit + (sb,))
+            # `matches!(x, P)` / `a && b` materialise a boolean in a temporary: a test of that temporary
+            # implies the guards of the unique assignment that gave it the tested value
+            e = lit[1]
+            if lit[0] in ('true', 'false') and e[0] == 'phi' and all(a[0] == 'const' and isinstance(a[1], bool) for a in e[2]):
+                want = (lit[0] == 'true')
+                hits = []
+                for (dbb, didx) in body.defs().get(e[1], []):
+                    if didx != 'term' and R.def_expr(dbb, didx) == ('const', want):
+                        hits.append(dbb)
+                if len(hits) == 1:
+                    work.append(hits[0])
     return out
 
 
@@ -937,27 +964,34 @@ def edge_literal(body, R, sb, lab):
     if lab[0] == 'assert':
         want = t['expected'] if lab[1] else (not t['expected'])
         return norm_bool(d, want)
-    # switch
-    v = lab[1]
+    # switch: lab = ('sw', (v1, v2, ...)) where a value may be 'otherwise'
+    vs = lab[1] if isinstance(lab[1], tuple) else (lab[1],)
     listed = [x[0] for x in t['targets']]
     if d[0] == 'discr':
         variants = dict(d[2])
-        if v == 'otherwise':
-            names = frozenset(n for k, n in variants.items() if k not in listed)
-        else:
-            names = frozenset([variants.get(v, '#%s' % v)])
-        return ('is', d[1], names)
+        names = set()
+        for v in vs:
+            if v == 'otherwise':
+                names |= {n for k, n in variants.items() if k not in listed}
+            else:
+                names.add(variants.get(v, '#%s' % v))
+        return ('is', d[1], frozenset(names))
     if t.get('discr_ty') == 'bool':
+        if len(vs) != 1:
+            return None
+        v = vs[0]
         if v == 'otherwise':
-            val = not (listed[0] != 0) if len(listed) == 1 else None
             # listed [0] -> otherwise means true; listed [1] -> otherwise means false
             val = (listed[0] == 0)
         else:
             val = (v != 0)
         return norm_bool(d, val)
-    if v == 'otherwise':
-        return ('notin', d, frozenset(listed))
-    return ('eq', d, v)
+    if 'otherwise' in vs:
+        rest = [x for x in listed if x not in vs]
+        return ('notin', d, frozenset(rest))
+    if len(vs) == 1:
+        return ('eq', d, vs[0])
+    return ('in', d, frozenset(vs))
 
 
 def norm_bool(d, val):
